@@ -361,7 +361,16 @@ class Executor:
                     s.generic_visit(n)
 
         Vis().visit(self.fn)
-        return {id(n): k for k, n in enumerate(nodes)}
+        out = {id(n): k for k, n in enumerate(nodes)}
+        # list comprehensions used as VALUES are numbered separately ("lc0", "lc1", ... in source order): a contract may
+        # give such a comprehension a loop invariant (LoopSpec under that key, accumulator local `_lc<k>`); without one it
+        # is handled by map_comprehension / filter_list_comprehension
+        stmts = {id(n.value) for n in nodes if isinstance(n, ast.Expr)}
+        lcs = [n for n in ast.walk(self.fn) if isinstance(n, ast.ListComp) and id(n) not in stmts]
+        lcs.sort(key=lambda n: (n.lineno, n.col_offset))
+        for k, n in enumerate(lcs):
+            out[id(n)] = f"lc{k}"
+        return out
 
     def loop_head(self, node):
         if isinstance(node, ast.For):
@@ -371,7 +380,7 @@ class Executor:
         if isinstance(node, ast.DictComp):
             g = node.generators[0]
             return f"{{... for {ast.unparse(g.target)} in {ast.unparse(g.iter)}}}"
-        g = node.value.generators[0]
+        g = (node if isinstance(node, ast.ListComp) else node.value).generators[0]
         return f"[... for {ast.unparse(g.target)} in {ast.unparse(g.iter)}]"
 
     # ---- exploration --------------------------------------------------------
@@ -870,6 +879,20 @@ class Executor:
             ast.copy_location(store, node)
             ast.fix_missing_locations(store)
             body = [store]
+            orelse = []
+        elif isinstance(node, ast.ListComp):
+            # [e for t in xs if c]  ==  acc = []; for t in xs: if c: acc.append(e)   (accumulator `_lc<k>`)
+            if len(node.generators) != 1:
+                raise Unsupported("list comprehension shape")
+            gen = node.generators[0]
+            target, iter_node = gen.target, gen.iter
+            app = ast.Expr(value=ast.Call(func=ast.Attribute(value=ast.Name(id=f"_{k}", ctx=ast.Load()), attr="append", ctx=ast.Load()), args=[node.elt], keywords=[]))
+            body = [app]
+            for cond in reversed(gen.ifs):
+                body = [ast.If(test=cond, body=body, orelse=[])]
+            for b in body:
+                ast.copy_location(b, node)
+                ast.fix_missing_locations(b)
             orelse = []
         elif isinstance(node, ast.Expr):
             comp = node.value
@@ -1739,6 +1762,19 @@ class Executor:
     def expr_ListComp(self, node):
         if len(node.generators) != 1:
             raise Unsupported("nested comprehension")
+        k = self.loop_nodes.get(id(node))
+        if isinstance(k, str) and k in self.contract.loops:
+            # the contract gives this comprehension a loop invariant: run it as the loop it abbreviates
+            ty = self.contract.locals.get(f"_{k}")
+            if not isinstance(ty, TList):
+                raise Unsupported(f"list comprehension {k} needs the type of its accumulator `_{k}` in the contract's locals")
+            saved = self.st.env.get(f"_{k}")
+            self.st.env[f"_{k}"] = VList(ty.et.list_theory().nil, ty.et)
+            self.exec_loop(node)
+            r = self.st.env.pop(f"_{k}")
+            if saved is not None:
+                self.st.env[f"_{k}"] = saved
+            return r
         gen = node.generators[0]
         src = self.eval(gen.iter)
         seq = self.as_sequence(src, node)
